@@ -44,13 +44,23 @@ MUTANTS = [
     {"name": "c07_revert_removal_order", "property": "C07", "patch": "revert_b68365e.patch"},
     {"name": "c07_revert_colorama_rewrap", "property": "C07", "patch": "revert_b412316.patch"},
     {"name": "c07_revert_combining_mark_order", "property": "C07", "patch": "revert_594cf13.patch"},
-    {"name": "c07_sequence_copy_shares_children", "property": "C07", "file": "sequences.py",
+    # (shares the children instead of copying them: make_edited() then raises ValueError from the parent setter for
+    #  every list, identically everywhere and without touching the input - an internal error, i.e. C05's subject)
+    {"name": "c05_sequence_copy_shares_children", "property": "C05", "file": "sequences.py",
      "old": "        ret['_children'] = self.container_type(n.make_edited() for n in self)\n        return ret\n\n    def print_parent_context",
      "new": "        ret['_children'] = self._children\n        return ret\n\n    def print_parent_context"},
+    {"name": "c07_diff_annotates_input_root", "property": "C07", "file": "tree.py",
+     "old": "        edit.on_diff(ret)\n        return ret\n",
+     "new": "        edit.on_diff(ret)\n        self.edit = edit\n        return ret\n"},
+    {"name": "c07_total_size_memo_on_wrong_node", "property": "C07", "file": "tree.py",
+     "old": "                finally:\n                    wrapped_tree_node._parent = parent_before\n",
+     "new": "                finally:\n                    if parent_before is not None or etn.__dict__.get('_children') is None:\n"
+            "                        wrapped_tree_node._parent = parent_before\n", "expect": "any"},
     {"name": "c07_formatter_flag_leaks", "property": "C07", "file": "graphtage.py",
      "old": "    def print_StringEdit(self, printer: Printer, edit: StringEdit):\n        self._last_was_inserted = False\n"
             "        self._last_was_removed = False\n",
-     "new": "    def print_StringEdit(self, printer: Printer, edit: StringEdit):\n"},
+     "new": "    def print_StringEdit(self, printer: Printer, edit: StringEdit):\n",
+     "expect": "any"},   # practically equivalent: the flags are reset again at the end of every print_StringEdit
     # ------------------------------------------------------------------ C16
     {"name": "c16_consolidate_strict_min", "property": "C16", "file": "fibonacci.py",
      "old": "                if a[i] <= self._min:\n", "new": "                if a[i] < self._min:\n"},
